@@ -24,6 +24,8 @@ Proof.
   - exists parent. cbn. repeat split; auto; discriminate.
   - destruct (pi_next (v_os v) pi) as [ok pi1]. destruct ok; cbn [negb].
     2:{ exists parent. cbn. repeat split; auto. }
+    match goal with |- context [if ?b then _ else _] => destruct b end.
+    { exists parent. cbn. repeat split; auto; discriminate. }
     destruct (alk (pi_part pi1) (children h parent)) as [c|] eqn:Elk.
     2:{ exists parent. cbn. repeat split; auto. destruct (pi_is_last pi1); auto. }
     assert (Hret : forall e, is_not_exist e = false ->
